@@ -46,7 +46,7 @@ PATHS = ['dict', 'json-text', 'tojson-path', 'tojson-pathlib', 'tojson-fileobj',
 
 @st.composite
 def cases(draw):
-    case = draw(gen.tables(draw(st.sampled_from(['small', 'small', 'medium']))))
+    case = draw(st.one_of(gen.tables('small'), gen.tables('small'), gen.tables('medium'), gen.wide_tables()))
     n, m = len(case['o']), len(case['p'])
     if draw(st.booleans()):
         names = draw(st.lists(LABEL, min_size=n + m, max_size=n + m, unique=True))
